@@ -181,17 +181,52 @@ func init() {
 			expect: []string{"var prefix = boc[0:4]", "boc = boc[4:]"},
 			doc:    "decoding of the flag byte `fb = boc[0]` (the byte after the 4 magic bytes) of the generic BOC magic"},
 	}
-	intfunModules["PoolSeqno"] = []target{
-		{file: "liteapi/pool/conn_pool.go", fn: "ConnPool.findFirstWorkingConnection", name: "firstWorkingAccepts",
-			block: "cond:uint64(c.MasterHead().Seqno)+1 >= uint64(maxSeqno)", livein: []livein{{"maxSeqno", "uint32"}},
-			opaque: []opaque{{text: "c.MasterHead().Seqno", name: "seqno", typ: "uint32", check: "ton.BlockID.Seqno"}},
-			expect: []string{"return c"},
-			doc:    "the test under which findFirstWorkingConnection returns a healthy connection: its head is at most one block behind"},
-		{file: "liteapi/pool/conn_pool.go", fn: "ConnPool.findBestPingConnection", name: "bestPingSkips",
-			block: "cond:uint64(c.MasterHead().Seqno)+1 < uint64(maxSeqno)", livein: []livein{{"maxSeqno", "uint32"}},
-			opaque: []opaque{{text: "c.MasterHead().Seqno", name: "seqno", typ: "uint32", check: "ton.BlockID.Seqno"}},
-			expect: []string{"continue"},
-			doc:    "the test under which findBestPingConnection skips a healthy connection: more than one block behind"},
+	intfunModules["CellDesc"] = append(intfunModules["CellDesc"],
+		target{file: "boc/cell.go", fn: "Cell.bocReprWithoutRefs", name: "reprLen", block: "prefix:0", result: "expr@int:((c.BitSize()+7)/8)+2",
+			opaque: []opaque{{text: "c.BitSize()", name: "bitSize", typ: "int"}},
+			expect: []string{"res := make([]byte, ((c.BitSize()+7)/8)+2)", "res[0] = d1(c, mask)", "res[1] = d2(c)", "copy(res[2:], c.getBuffer())", "return res"},
+			doc:    "length of the representation without refs: two descriptor bytes and the data bytes; bitSize = c.BitSize()"},
+		target{file: "boc/cell.go", fn: "Cell.bocReprWithoutRefs", name: "tagNeeded", block: "cond:c.BitSize()%8 != 0",
+			opaque: []opaque{{text: "c.BitSize()", name: "bitSize", typ: "int"}},
+			doc:    "whether a completion tag is OR-ed into the last byte"},
+		target{file: "boc/cell.go", fn: "Cell.bocReprWithoutRefs", name: "tagBit", block: "prefix:0", result: "expr@byte:1 << (7 - c.BitSize()%8)",
+			opaque: []opaque{{text: "c.BitSize()", name: "bitSize", typ: "int"}},
+			expect: []string{"res[len(res)-1] |= 1 << (7 - c.BitSize()%8)", "text:if c.BitSize()%8 != 0 {"},
+			doc:    "the completion tag OR-ed into the last byte `res[len(res)-1]`"},
+		target{file: "boc/immutable_cell.go", fn: "newImmutableCell", name: "depthBytes",
+			block:  "range:var depthRepr [2]byte|binary.BigEndian.PutUint16(depthRepr[:], uint16(childDepth))",
+			livein: []livein{{"childDepth", "int"}}, result: "bufs:depthRepr",
+			expect: []string{"childDepth := ref.Depth(childLevelIndex)", "x.Write(depthRepr[:])"},
+			doc:    "the two bytes hashed for a child's depth"})
+	intfunModules["WalletInts"] = []target{
+		{file: "wallet/wallet_v3.go", fn: "newWalletV3", name: "subWalletDefaultV3", block: "prefix:1", result: "expr:uint32(DefaultSubWallet+workchain)",
+			livein: []livein{{"workchain", "int"}}, opaque: []opaque{{text: "defaultOr(options.Workchain, 0)", name: "wc", typ: "int"}},
+			expect: []string{"subWalletID := defaultOr(options.SubWalletID, uint32(DefaultSubWallet+workchain))"},
+			doc:    "default sub-wallet id of a v3 wallet: wc = defaultOr(options.Workchain, 0)"},
+		{file: "wallet/wallet_v4.go", fn: "newWalletV4", name: "subWalletDefaultV4", block: "prefix:1", result: "expr:uint32(DefaultSubWallet+workchain)",
+			opaque: []opaque{{text: "defaultOr(opts.Workchain, 0)", name: "wc", typ: "int"}},
+			expect: []string{"subWalletID := defaultOr(opts.SubWalletID, uint32(DefaultSubWallet+workchain))"},
+			doc:    "default sub-wallet id of a v4 wallet"},
+		{file: "wallet/wallet_highload_v2.go", fn: "newWalletHighloadV2", name: "subWalletDefaultHighload", block: "prefix:1", result: "expr:uint32(DefaultSubWallet+workchain)",
+			opaque: []opaque{{text: "defaultOr(options.Workchain, 0)", name: "wc", typ: "int"}},
+			expect: []string{"subWalletID := defaultOr(options.SubWalletID, uint32(DefaultSubWallet+workchain))"},
+			doc:    "default sub-wallet id of a highload v2 wallet"},
+		{file: "wallet/wallet_highload_v2.go", fn: "walletHighloadV2.createSignedMsgBodyCell", name: "highloadQueryID", block: "prefix:1", result: "boundedID",
+			opaque: []opaque{{text: "msgConfig.ValidUntil.UTC().Unix()", name: "validUntil", typ: "int64"}, {text: "rand.Uint32()", name: "rnd", typ: "uint32"}},
+			expect: []string{"text:BoundedQueryID: boundedID,"},
+			doc:    "bounded query id of a highload message: validUntil = msgConfig.ValidUntil.UTC().Unix(), rnd = rand.Uint32()"},
+		{file: "wallet/models.go", fn: "SimpleTransfer.ToInternal", name: "defaultMessageMode", block: "prefix:0", result: "expr@uint8:DefaultMessageMode",
+			expect: []string{"return intMsg, DefaultMessageMode, nil"},
+			doc:    "the send mode SimpleTransfer.ToInternal returns (result `mode uint8`)"},
+	}
+	intfunModules["TonConnectMsg"] = []target{
+		{file: "tonconnect/server.go", fn: "createMessage", name: "createMessageInts", block: "prefix:6", result: "bufs:wc,dl,ts",
+			opaque: []opaque{{text: "message.workChain", name: "workChain", typ: "int32", check: "tonconnect.parsedMessage.workChain"},
+				{text: "len(message.domain)", name: "domainLen", typ: "int"},
+				{text: "message.ts", name: "ts", typ: "int64", check: "tonconnect.parsedMessage.ts"}},
+			expect: []string{"m := []byte(tonProofPrefix)", "m = append(m, wc...)", "m = append(m, message.address...)", "m = append(m, dl...)",
+				"m = append(m, []byte(message.domain)...)", "m = append(m, ts...)", "m = append(m, []byte(message.payload)...)", "messageHash := sha256.Sum256(m)"},
+			doc: "the three integer fields of the signed ton-proof message: workchain big-endian, domain length and timestamp little-endian; the byte string is prefix ++ wc ++ address ++ dl ++ domain ++ ts ++ payload"},
 	}
 	for name := range intfunModules {
 		n := name
@@ -266,15 +301,16 @@ type arrayT struct {
 type errorT struct{}
 
 type pkg struct {
-	dir   string
-	fset  *token.FileSet
-	files []*ast.File
-	types map[string]*ast.TypeSpec
-	tfile map[string]*ast.File
-	vars  map[string]*ast.ValueSpec
-	vfile map[string]*ast.File
-	funcs map[string]*ast.FuncDecl
-	ffile map[string]*ast.File
+	dir    string
+	fset   *token.FileSet
+	files  []*ast.File
+	types  map[string]*ast.TypeSpec
+	tfile  map[string]*ast.File
+	vars   map[string]*ast.ValueSpec
+	vfile  map[string]*ast.File
+	consts map[string]*ast.ValueSpec // package-level constants (single name = single value)
+	funcs  map[string]*ast.FuncDecl
+	ffile  map[string]*ast.File
 }
 
 type world struct {
@@ -289,7 +325,7 @@ func (w *world) load(dir string) (*pkg, error) {
 		return p, nil
 	}
 	p := &pkg{dir: dir, fset: token.NewFileSet(), types: map[string]*ast.TypeSpec{}, tfile: map[string]*ast.File{},
-		vars: map[string]*ast.ValueSpec{}, vfile: map[string]*ast.File{}, funcs: map[string]*ast.FuncDecl{}, ffile: map[string]*ast.File{}}
+		vars: map[string]*ast.ValueSpec{}, vfile: map[string]*ast.File{}, consts: map[string]*ast.ValueSpec{}, funcs: map[string]*ast.FuncDecl{}, ffile: map[string]*ast.File{}}
 	ents, err := os.ReadDir(filepath.Join(w.repo, dir))
 	if err != nil {
 		return nil, err
@@ -318,6 +354,10 @@ func (w *world) load(dir string) (*pkg, error) {
 								p.vars[nm.Name] = s
 								p.vfile[nm.Name] = f
 							}
+						}
+						if d.Tok == token.CONST && len(s.Names) == 1 && len(s.Values) == 1 {
+							p.consts[s.Names[0].Name] = s
+							p.vfile[s.Names[0].Name] = f
 						}
 					}
 				}
@@ -446,6 +486,9 @@ func (w *world) resolve(e ast.Expr, p *pkg, f *ast.File, depth int) (interface{}
 	return nil, fmt.Errorf("type expression %s: outside the subset", txt(e))
 }
 
+// nosp removes blanks: go/printer spaces binary operators differently depending on the nesting depth
+func nosp(s string) string { return strings.ReplaceAll(s, " ", "") }
+
 func txt(n interface{}) string {
 	var b bytes.Buffer
 	printer.Fprint(&b, token.NewFileSet(), n)
@@ -494,16 +537,17 @@ type tableInfo struct {
 }
 
 type ctx struct {
-	w       *world
-	p       *pkg
-	f       *ast.File
-	mod     *module
-	vars    map[string]*binding
-	opaque  []opaque
-	used    map[string]bool // opaque names / struct field params used
-	guards  *[]string       // panic guards collected for the current statement
-	recv    string          // receiver variable name ("" none)
-	recvTyp string          // receiver type name
+	w          *world
+	p          *pkg
+	f          *ast.File
+	mod        *module
+	vars       map[string]*binding
+	opaque     []opaque
+	used       map[string]bool // opaque names / struct field params used
+	guards     *[]string       // panic guards collected for the current statement
+	constDepth int
+	recv       string // receiver variable name ("" none)
+	recvTyp    string // receiver type name
 }
 
 func (c *ctx) clone() *ctx {
@@ -587,7 +631,7 @@ func (c *ctx) expr(e ast.Expr, hint *ity) (val, error) {
 	// opaque expressions first
 	et := txt(e)
 	for _, o := range c.opaque {
-		if o.text == et {
+		if nosp(o.text) == nosp(et) {
 			t := builtinTypes[o.typ]
 			c.used["opaque:"+o.name] = true
 			return c.mk(leanName(o.name), t), nil
@@ -623,6 +667,29 @@ func (c *ctx) expr(e ast.Expr, hint *ity) (val, error) {
 		case "true", "false":
 			bv := e.Name == "true"
 			return val{lean: e.Name, t: builtinTypes["bool"], bconst: &bv}, nil
+		}
+		// a package-level integer constant `const X = <constant expression>` (untyped, or typed if declared so)
+		if cs, ok := c.p.consts[e.Name]; ok && c.constDepth < 8 {
+			cc := &ctx{w: c.w, p: c.p, f: c.p.vfile[e.Name], mod: c.mod, vars: map[string]*binding{}, used: map[string]bool{}, constDepth: c.constDepth + 1}
+			v, err := cc.expr(cs.Values[0], nil)
+			if err != nil {
+				return val{}, fmt.Errorf("constant %s: %v", e.Name, err)
+			}
+			if v.cv == nil {
+				return val{}, fmt.Errorf("constant %s is not an integer constant: outside the subset", e.Name)
+			}
+			if cs.Type != nil {
+				r, err := c.w.resolve(cs.Type, c.p, cc.f, 0)
+				if err != nil {
+					return val{}, err
+				}
+				t, ok := r.(*ity)
+				if !ok || t.isBool {
+					return val{}, fmt.Errorf("constant %s: type outside the subset", e.Name)
+				}
+				return cc.mat(val{cv: v.cv}, t)
+			}
+			return val{cv: v.cv}, nil
 		}
 		return val{}, fmt.Errorf("identifier %s: outside the subset", e.Name)
 	case *ast.SelectorExpr:
@@ -995,6 +1062,13 @@ func (c *ctx) binary(e *ast.BinaryExpr, hint *ity) (val, error) {
 				r.lean = fmt.Sprintf("(BitVec.sdiv %s %s)", paren(x.lean), paren(y.lean))
 			} else {
 				r.lean = fmt.Sprintf("(BitVec.srem %s %s)", paren(x.lean), paren(y.lean))
+				if y.lo.Sign() > 0 { // |x rem c| < c, sign of the dividend
+					m := new(big.Int).Sub(y.lo, big.NewInt(1))
+					r.lo, r.hi = new(big.Int).Neg(m), m
+					if x.lo.Sign() >= 0 {
+						r.lo = big.NewInt(0)
+					}
+				}
 			}
 		} else {
 			if e.Op == token.QUO {
@@ -1489,26 +1563,33 @@ func (m *module) genFunc(t target) (string, error) {
 		case "prefix": // the first N statements of the function body
 			k := 0
 			fmt.Sscan(want, &k)
-			if k < 1 || k > len(fd.Body.List) {
+			if k < 0 || k > len(fd.Body.List) {
 				return "", fmt.Errorf("block %q: the function has %d statements", t.block, len(fd.Body.List))
 			}
 			blkStmts = fd.Body.List[:k]
 			n = 1
-		case "range": // top-level statements from <first text> to <last text>, inclusive
+		case "range": // consecutive statements of one block (at any depth) from <first text> to <last text>, inclusive
 			first, last, _ := strings.Cut(want, "|")
-			i0, i1 := -1, -1
-			for i, st := range fd.Body.List {
-				if txt(st) == first && i0 < 0 {
-					i0 = i
+			ast.Inspect(fd.Body, func(nd ast.Node) bool {
+				bs, ok := nd.(*ast.BlockStmt)
+				if !ok {
+					return true
 				}
-				if txt(st) == last && i0 >= 0 && i1 < 0 {
-					i1 = i
+				i0, i1 := -1, -1
+				for i, st := range bs.List {
+					if txt(st) == first && i0 < 0 {
+						i0 = i
+					}
+					if txt(st) == last && i0 >= 0 && i1 < 0 {
+						i1 = i
+					}
 				}
-			}
-			if i0 >= 0 && i1 >= i0 {
-				blkStmts = fd.Body.List[i0 : i1+1]
-				n = 1
-			}
+				if i0 >= 0 && i1 >= i0 {
+					blkStmts = bs.List[i0 : i1+1]
+					n++
+				}
+				return true
+			})
 		case "for", "if", "cond":
 			ast.Inspect(fd.Body, func(nd ast.Node) bool {
 				switch s := nd.(type) {
@@ -1570,13 +1651,22 @@ func (m *module) genFunc(t target) (string, error) {
 		shape.stru = []*structT{nil}
 		shape.named = []string{""}
 		switch {
-		case condExpr != nil || strings.HasPrefix(t.result, "expr:"):
+		case condExpr != nil || strings.HasPrefix(t.result, "expr:") || strings.HasPrefix(t.result, "expr@"):
 			resExpr := condExpr
+			var exprHint *ity
 			if condExpr == nil {
 				wantE := strings.TrimPrefix(t.result, "expr:")
+				if strings.HasPrefix(t.result, "expr@") { // expr@<type>:<text> — the Go context gives the expression this type
+					tn, rest, _ := strings.Cut(strings.TrimPrefix(t.result, "expr@"), ":")
+					exprHint = builtinTypes[tn]
+					if exprHint == nil {
+						return "", fmt.Errorf("result %q: unknown type", t.result)
+					}
+					wantE = rest
+				}
 				cnt := 0
 				ast.Inspect(fd, func(nd ast.Node) bool {
-					if e, ok := nd.(ast.Expr); ok && txt(e) == wantE {
+					if e, ok := nd.(ast.Expr); ok && nosp(txt(e)) == nosp(wantE) {
 						if cnt == 0 {
 							resExpr = e
 						}
@@ -1590,17 +1680,46 @@ func (m *module) genFunc(t target) (string, error) {
 				}
 			}
 			finish = func(c *ctx) ([]string, error) {
-				v, err := c.expr(resExpr, nil)
+				v, err := c.expr(resExpr, exprHint)
 				if err != nil {
 					return nil, err
 				}
 				if v.t == nil {
-					return nil, fmt.Errorf("untyped block result")
+					if v, err = c.mat(v, exprHint); err != nil {
+						return nil, err
+					}
+				}
+				if exprHint != nil && !v.t.same(exprHint) {
+					return nil, fmt.Errorf("block result has type %s, the target says %s", v.t, exprHint)
 				}
 				if len(shape.comps) == 0 {
 					shape.comps = []field{{"", v.t}}
 				}
 				return []string{v.lean}, nil
+			}
+		case strings.HasPrefix(t.result, "bufs:"):
+			names := strings.Split(strings.TrimPrefix(t.result, "bufs:"), ",")
+			shape.groups, shape.stru, shape.named = nil, nil, nil
+			for range names {
+				shape.groups = append(shape.groups, 1)
+				shape.stru = append(shape.stru, nil)
+				shape.named = append(shape.named, "")
+			}
+			finish = func(c *ctx) ([]string, error) {
+				var out []string
+				var comps []field
+				for _, rn := range names {
+					b, ok := c.vars[rn]
+					if !ok || b.buf == nil {
+						return nil, fmt.Errorf("block result %s is not a local byte buffer", rn)
+					}
+					out = append(out, "["+strings.Join(b.buf, ", ")+"]")
+					comps = append(comps, field{rn, bytesT})
+				}
+				if len(shape.comps) == 0 {
+					shape.comps = comps
+				}
+				return out, nil
 			}
 		case strings.HasPrefix(t.result, "vars:"):
 			names := strings.Split(strings.TrimPrefix(t.result, "vars:"), ",")
@@ -1824,6 +1943,21 @@ func (g *gen) stmts(c *ctx, ss []ast.Stmt, d int) (string, error) {
 		if len(vs.Names) != 1 || len(vs.Values) > 1 || (vs.Type == nil && len(vs.Values) != 1) {
 			return "", fmt.Errorf("declaration %s: outside the subset", txt(s))
 		}
+		if at, ok := vs.Type.(*ast.ArrayType); ok && len(vs.Values) == 0 && txt(at.Elt) == "byte" {
+			if bl, ok := at.Len.(*ast.BasicLit); ok && bl.Kind == token.INT {
+				n := 0
+				fmt.Sscan(bl.Value, &n)
+				if n < 1 || n > 16 {
+					return "", fmt.Errorf("%s: buffer length outside 1..16: outside the subset", txt(s))
+				}
+				buf := make([]string, n)
+				for i := range buf {
+					buf[i] = "0#8"
+				}
+				c.vars[vs.Names[0].Name] = &binding{buf: buf}
+				return g.stmts(c, rest, d)
+			}
+		}
 		if vs.Type == nil { // var x = e: like x := e
 			return g.assign(c, &ast.AssignStmt{Lhs: []ast.Expr{vs.Names[0]}, Tok: token.DEFINE, Rhs: vs.Values}, rest, d)
 		}
@@ -1883,7 +2017,11 @@ func (g *gen) exprStmt(c *ctx, s *ast.ExprStmt, rest []ast.Stmt, d int) (string,
 	}
 	ft := txt(ce.Fun)
 	if pf, ok := putFuncs[ft]; ok && importsPath(c.f, "binary", "encoding/binary") && len(ce.Args) == 2 {
-		id, ok := ce.Args[0].(*ast.Ident)
+		dst := ce.Args[0]
+		if se, ok := dst.(*ast.SliceExpr); ok && se.Low == nil && se.High == nil && se.Max == nil { // x[:] of a local array
+			dst = se.X
+		}
+		id, ok := dst.(*ast.Ident)
 		if !ok {
 			return "", fmt.Errorf("statement %s: destination is not a local buffer: outside the subset", txt(s))
 		}
